@@ -159,6 +159,9 @@ def _json_value(rng, depth=0):
         return rng.randint(-5, 1 << 33)
     if t == "float":
         return rng.choice([0.5, 1.25, -3.75, 1e3])
+    if t == "str" and rng.random() < 0.25:
+        # valid non-ASCII text and (legal JSON) escaped lone surrogates
+        return rng.choice(["caf\u00e9", "\u65e5\u672c\u8a9e", "\u00b5s \u00b1 1", "x\ud83dy", "\U0001f600 ok", "\u2028"])
     if t == "str":
         return _ascii(rng, rng.randint(0, 12), alphabet=_PRINTABLE + " {}[],\\/")   # no '":' sequences: prettyPrint (C06, not claimed) rewrites them
     if t == "bool":
@@ -180,8 +183,16 @@ def gen_builtin_json(rng):
         v = _ascii(rng, rng.randint(1, 10))
     else:
         v = rng.randint(0, 999999)
+    # ensure_ascii=False puts real UTF-8 into the payload; lone surrogates can only be written escaped
     text = json.dumps(v, indent=rng.choice([None, 2]))
-    raw = text.encode() + b"\x00" * rng.choice([0, 0, 1, 3])
+    if rng.random() < 0.5:
+        try:
+            t2 = json.dumps(v, indent=rng.choice([None, 2]), ensure_ascii=False)
+            t2.encode("utf-8")
+            text = t2
+        except UnicodeEncodeError:
+            pass
+    raw = text.encode("utf-8") + b"\x00" * rng.choice([0, 0, 1, 3])
     return raw.hex(), v
 
 
@@ -192,10 +203,10 @@ def gen_builtin_text(rng):
         # first and last char printable non-space so .strip() is neutral
         s = [rng.choice(_PRINTABLE)]
         for _ in range(n - 2):
-            s.append(rng.choice(_PRINTABLE + "  \t\x01\x7f\x1b"))
+            s.append(rng.choice(_PRINTABLE + "  \t\x01\x7f\x1b\u00e9\u65e5"))
         s.append(rng.choice(_PRINTABLE))
         lines.append("".join(s))
-    raw = "\n".join(lines).encode() + b"\x00" * rng.choice([0, 1, 2])
+    raw = "\n".join(lines).encode("utf-8") + b"\x00" * rng.choice([0, 1, 2])
     expect = ["".join(ch if " " <= ch <= "~" else "." for ch in ln) for ln in lines]
     return raw.hex(), expect
 
@@ -205,7 +216,7 @@ def gen_ud(rng, creator, targets=None):
     with high probability (plugin-served components)."""
     kind = rng.choice(["ud", "ud", "ed"])
     sec = {"kind": kind, "id": "UD" if kind == "ud" else "ED",
-           "ver": rng.choice([1, 1, 2, 3, 0x7F]), "subtype": rng.choice([1, 2, 3, 4, 0x48, 0x49, 0x54, 0xAA])}
+           "ver": rng.choice([1, 1, 2, 2, 3, 0, 0x7F, 0xFF]), "subtype": rng.choice([1, 2, 3, 4, 0x48, 0x49, 0x54, 0xAA])}
     sec_creator = creator
     if kind == "ed":
         sec_creator = rng.choice(KNOWN_CREATORS + "ZQ")
@@ -285,13 +296,13 @@ def gen_pel(rng, *, eid=None, plid=None, bmc_id=None, creator=None, want_class=N
     creator = creator or rng.choice(["O", "O", "O", "B", "H", "M", "T", "P", "S", "K", "L", "C"])
     sev, action = gen_class(rng, want_class)
     eid = gen_id(rng, id_magnitude) if eid is None else eid
-    r = {"creator": creator, "comp": rng.choice([0x2000, 0x1000, 0xE500, 0x2C00, 0x3100]),
+    r = {"creator": creator, "comp": rng.choice([0x2000, 0x1000, 0xE500, 0x2C00, 0x3100, 0x4242, 0x5052]),
          "create": _bcd_time(rng), "commit": _bcd_time(rng),
          "bmc_id": rng.randrange(1, 100000) if bmc_id is None else bmc_id,
          "cssver": rng.choice([0, 1, 0x0102030405060708, rng.randrange(1 << 64)]),
          "plid": (eid if rng.random() < 0.6 else gen_id(rng, id_magnitude)) if plid is None else plid,
          "eid": eid,
-         "uh": {"comp": rng.choice([0x2000, 0x1000, 0x8D00]), "subsystem": rng.choice(SUBSYSTEMS),
+         "uh": {"comp": rng.choice([0x2000, 0x1000, 0x8D00, 0x4242]), "subsystem": rng.choice(SUBSYSTEMS),
                 "scope": rng.choice([1, 2, 3, 4, 9]), "severity": sev,
                 "type": rng.choice([0, 1, 2, 4, 8, 0x10, 7]), "domain": rng.randrange(256),
                 "vector": rng.randrange(256), "action": action,
